@@ -1067,10 +1067,7 @@ def run(ctx: common.Ctx):
       msg = (f'float64 orbital phases outside the half-open interval [0, 2pi) of the property statement on realistic model times '
              f'(DEFAULT_SCALE): {n_lit64} cases, worst excess {worst64:.3e} rad (never negative; bounded by 2^-53 (|x| + 2*2pi), '
              f'theorem reduceFl_mem), first: {first64}; ' + ' | '.join(rows))
-      if any(k['key'] == 'orbital-range' for k in ctx.known):
-        ctx.fail('orbital-range', msg, real_inp)
-      else:
-        ctx.notes.append('orbital-range (measured, not a recorded known finding): ' + msg)
+      ctx.fail('orbital-range', msg, real_inp)   # KNOWN-FINDING when recorded, VIOLATION otherwise
     elif rows:
       ctx.notes.append('orbital-range: float64 phases stay in [0, 2pi) on the realistic times; float32: ' + ' | '.join(rows))
 
